@@ -109,6 +109,18 @@ def respell(text: str, how: str) -> bytes | str:
     """Rewrite XML text without changing its meaning."""
     if how == "comment":
         return text.replace(">", "><!-- c -->", 1) if text.count(">") > 1 else text
+    if how in ("comment-in-text", "pi-in-text", "cdata-in-text"):
+        # split the first run of character data of two or more characters (no markup, no references)
+        import re
+
+        m = re.search(r">([^<>&]{2,})</", text)
+        if not m:
+            return text
+        run = m.group(1)
+        half = len(run) // 2
+        mid = {"comment-in-text": "<!--c-->", "pi-in-text": "<?p d?>", "cdata-in-text": f"<![CDATA[{run[half:]}]]>"}[how]
+        new = run[:half] + mid + ("" if how == "cdata-in-text" else run[half:])
+        return text[: m.start(1)] + new + text[m.end(1):]
     if how == "pi":
         return "<?pi data?>" + text
     if how == "decl":
@@ -126,4 +138,4 @@ def respell(text: str, how: str) -> bytes | str:
     raise ValueError(how)
 
 
-RESPELL = ["comment", "pi", "decl", "utf16", "latin1", "trailing-ws"]
+RESPELL = ["comment", "pi", "decl", "utf16", "latin1", "trailing-ws", "comment-in-text", "pi-in-text", "cdata-in-text"]
